@@ -275,8 +275,10 @@ def eval_helper(name, data):
         return [(f"C12|{name}|encode:raises:{type(e).__name__}", f"encode({data!r}) raised {e!r}")]
     if name == "b32":
         want = base64.b32encode(data).rstrip(b"=").decode("ascii")
-        forms = [want, want.lower(), want.encode(), base64.b32encode(data).decode(),
-                 want.replace("B", "8").replace("O", "0"), want.lower().replace("b", "8").replace("o", "0")]
+        typo_u = want.replace("B", "8").replace("O", "0")
+        typo_l = want.lower().replace("b", "8").replace("o", "0")
+        forms = [want, want.lower(), want.encode(), want.lower().encode(), base64.b32encode(data).decode(),
+                 base64.b32encode(data), typo_u, typo_l, typo_u.encode(), typo_l.encode()]
     else:
         want = base64.b64encode(data).rstrip(b"=")
         if "ab64" in name:
